@@ -1,17 +1,25 @@
 #!/bin/bash
-# hunted.sh [tree] : re-run every demo of /verif/hunted against a tree (default /repo) and compare with dispositions.json:
-# a finding marked "fixed" must pass (exit 0); "known" / "out_of_scope" ones are expected to still show (exit 1).
+# hunted.sh [tree] : re-run every demo of /verif/hunted (round 3) and /verif/hunted2 (round 4) against a tree (default /repo)
+# and compare with the dispositions.json of that directory: a finding marked "fixed" must pass (exit 0, or the exit code
+# given as demo_exit where the demo itself is outdated - see its note); "known" / "out_of_scope" ones are expected to still
+# show (exit 1).
 tree=${1:-/repo}
+here=$(cd "$(dirname "$0")/.." && pwd)
 bad=0
-for d in /verif/hunted/C*/; do
-  n=$(basename $d)
-  st=$(python3 -c "import json;print(json.load(open('/verif/hunted/dispositions.json')).get('$n',{}).get('status','?'))")
-  w=/tmp/hunted-$$-$n; mkdir -p $w
-  (cd $w && PYTHONPATH=$tree timeout 180 /venv/bin/python $d/demo.py >/dev/null 2>&1); rc=$?
-  rm -rf $w
-  verdict=ok
-  if [ "$st" = fixed ] && [ $rc != 0 ]; then verdict="REGRESSION (marked fixed, demo exit $rc)"; bad=1; fi
-  if [ "$st" != fixed ] && [ $rc = 0 ]; then verdict="note: marked $st but the demo passes now"; fi
-  echo "$n status=$st demo_exit=$rc $verdict"
+for dir in $here/hunted $here/hunted2; do
+  for d in $dir/C*/; do
+    n=$(basename $d)
+    read st want < <(python3 -c "
+import json
+e=json.load(open('$dir/dispositions.json')).get('$n',{})
+print(e.get('status','?'), e.get('demo_exit', 0 if e.get('status')=='fixed' else 1))")
+    w=$(mktemp -d /tmp/hunted-XXXXXX)
+    (cd $w && PYTHONPATH=$tree timeout 180 /venv/bin/python $d/demo.py >/dev/null 2>&1); rc=$?
+    rm -rf $w
+    verdict=ok
+    if [ "$st" = fixed ] && [ $rc != $want ]; then verdict="REGRESSION (marked fixed, demo exit $rc, expected $want)"; bad=1; fi
+    if [ "$st" != fixed ] && [ $rc = 0 ]; then verdict="note: marked $st but the demo passes now"; fi
+    echo "$(basename $dir)/$n status=$st demo_exit=$rc $verdict"
+  done
 done
 exit $bad
